@@ -27,7 +27,7 @@ impl CtStats {
 /// Iterator over owned tracked elements with a configurable size_hint regime.
 pub struct It<E> {
     items: std::vec::IntoIter<E>,
-    regime: u8, // 0 exact (ESI), 1 exact hint, 2 lower<upper, 3 unknown, 4 lower=0 upper exact
+    regime: u8, // 0 exact (ESI), 1 exact hint, 2 lower<upper, 3 unknown, 4 lower=0 upper exact, 5 lower<=1 upper huge
 }
 impl<E> Iterator for It<E> {
     type Item = E;
@@ -40,7 +40,9 @@ impl<E> Iterator for It<E> {
             0 | 1 => (n, Some(n)),
             2 => (n / 2, Some(n + 3)),
             3 => (0, None),
-            _ => (0, Some(n)),
+            4 => (0, Some(n)),
+            // honest but very loose upper bound
+            _ => (n.min(1), Some(usize::MAX / 2)),
         }
     }
 }
